@@ -1114,6 +1114,21 @@ Lemma source_tracer :
   gen_builder_default_max = Some Trace /\ gen_builder_init_sets_max = true /\ gen_as_log_metadata = (true, true).
 Proof. repeat split; reflexivity. Qed.
 
+(** A LogTracer init that fails (the process already has a logger) changes nothing: `log::max_level()` stays what it
+    was, whatever level the builder was given — so the reverse direction (tracing -> log records through the
+    application's own logger) and every other logger's view of the `log` macros are untouched by the attempt. *)
+Lemma failed_init_changes_nothing :
+  gen_builder_max_before_install = false /\
+  forall cur w, init_again_log_max cur w = cur.
+Proof. split; [reflexivity|]. intros cur w. unfold init_again_log_max. reflexivity. Qed.
+
+(** Non-vacuity, and what the other statement order would mean: the level asked for replaces the one in force. *)
+Lemma failed_init_other_order_refuted :
+  init_again_log_max (Some Trace) (Some (Some Error)) = Some Trace /\
+  (let other cur (w : option (option lv)) := match w with Some f => f | None => gen_builder_default_max end in
+   other (Some Trace) (Some (Some Error)) = Some Error /\ other (Some Trace) (Some (Some Error)) <> Some Trace).
+Proof. split; [reflexivity|]. split; [reflexivity|discriminate]. Qed.
+
 Definition LOG_TARGET_F : bytes := [108; 111; 103; 46; 116; 97; 114; 103; 101; 116].                      (* "log.target" *)
 Definition LOG_MODULE_F : bytes := [108; 111; 103; 46; 109; 111; 100; 117; 108; 101; 95; 112; 97; 116; 104].  (* "log.module_path" *)
 Definition LOG_FILE_F : bytes := [108; 111; 103; 46; 102; 105; 108; 101].                                  (* "log.file" *)
